@@ -36,10 +36,10 @@ def run(ck):
     ck.run_rule(s2_s5_line_walk)
     ck.run_rule(s1_sinks_and_priority)
     ck.run_rule(s6_plumbing)
-    from .c08 import h1_h2_h5_influence, h6_single_source
+    from .c08 import h1_h2_h5_influence, h6_single_source, h4_keys
     from .c15 import t1_key_check, t2_routing, t3_never_emptied
     from .c07 import i10_first_iteration
-    for r in (h1_h2_h5_influence, h6_single_source, t1_key_check, t2_routing, t3_never_emptied, i10_first_iteration):
+    for r in (h1_h2_h5_influence, h4_keys, h6_single_source, t1_key_check, t2_routing, t3_never_emptied, i10_first_iteration):
         ck.run_rule(r)
 
 
